@@ -42,9 +42,9 @@ impl World {
                 return;
             }
         }
-        if let Some((c, f, d)) = rust_cc::verif::flags() {
-            if c || f || d {
-                self.fail(if unwound { "O-CONTAIN.flags" } else { "O-PHASE.flags" }, format!("collector flags (collecting, finalizing, dropping) = ({}, {}, {}) at top level", c, f, d));
+        if let Some((c, f, d, dl)) = rust_cc::verif::flags() {
+            if c || f || d || dl {
+                self.fail(if unwound { "O-CONTAIN.flags" } else { "O-PHASE.flags" }, format!("the collector is not idle at top level: flags (collecting, finalizing, dropping, dropping a list) = ({}, {}, {}, {})", c, f, d, dl));
                 return;
             }
         }
